@@ -12,7 +12,7 @@ C08, closed (WP close, item 2b) — `P2_refines`, `B_refines`, `pi_meissel_glue`
 contract is proved as `IterSpecTo … N`; `N = 2^63` suffices because `P2_thread` never asks for a position above
 `max(√x, ⌊x/(y+1)⌋ + 1) ≤ 2^63` (`⌊x/max(y,1)⌋ < 2^63` is a hypothesis of the theorems already: the `int64_t` narrowing).
 `pi_legendre_glue` does not involve an iterator (pi_legendre.cpp has none): nothing to discharge there.
-That one running object behaves like the position-indexed abstraction (k-th call): PcProps/C18Closed.lean.
+That one running object behaves like the position-indexed abstraction (k-th call): PcProps/C18Closed2.lean.
 Only property theorems, non-vacuity examples and the axiom audit live here.
 -/
 import PcProofs.CloseIter3
